@@ -105,7 +105,15 @@ func sigs(cs []*object.Commit) []string {
 }
 
 // merge identities vs union-find, WF lists (parts disjoint within a list)
-func c16merge(rng *rand.Rand) string {
+func c16merge(rng *rand.Rand) string { return c16mergeG(rng, false) }
+
+// the same with lists in which a token may occur in two entries of one list (reachable through a hand-written
+// people dictionary): outside the premise of the component theorems, known finding D9
+var sharedWithin bool
+
+func c16mergeS(rng *rand.Rand) string { return c16mergeG(rng, true) }
+
+func c16mergeG(rng *rand.Rand, shared bool) string {
 	vocab := []string{"a", "b", "c", "d", "e", "f@x", "g@x", "h@x", "i@x", "j"}
 	mk := func() []string {
 		perm := rng.Perm(len(vocab))
@@ -122,9 +130,29 @@ func c16merge(rng *rand.Rand) string {
 				res = append(res, strings.Join(parts, "|"))
 			}
 		}
+		if shared && len(res) >= 2 {
+			// one token of an entry is repeated in another entry of the same list
+			from, to := rng.Intn(len(res)), rng.Intn(len(res))
+			if from != to {
+				ps := strings.Split(res[from], "|")
+				res[to] = res[to] + "|" + ps[rng.Intn(len(ps))]
+			}
+		}
 		return res
 	}
 	rd1, rd2 := mk(), mk()
+	sharedWithin = false
+	for _, rd := range [][]string{rd1, rd2} {
+		seen := map[string]int{}
+		for i, e := range rd {
+			for _, t := range strings.Split(e, "|") {
+				if j, ok := seen[t]; ok && j != i {
+					sharedWithin = true
+				}
+				seen[t] = i
+			}
+		}
+	}
 	idx, merged := identity.MergeReversedDictsIdentities(rd1, rd2)
 	// union find over identities
 	type ident struct{ list, i int }
@@ -346,14 +374,27 @@ type gitRepo = gitRepository
 
 func main() {
 	log.SetOutput(ioutil.Discard)
-	fs := map[string]func(*rand.Rand) string{"c16": c16, "c16merge": c16merge, "c19": c19, "c11": c11}
+	fs := map[string]func(*rand.Rand) string{"c16": c16, "c16merge": c16merge, "c16mergeS": c16mergeS, "c19": c19, "c11": c11}
 	hv.RunOracle(func(cs int64, extra []string) (desc string, class string, m string, tags []string) {
 		mode := extra[0]
+		classify := func() {
+			class = mode
+			if mode == "c16mergeS" {
+				class, tags = "c16merge", []string{"lists_well_formed"}
+				if sharedWithin {
+					class, tags = "token-shared-within-list", []string{"token_shared_within_a_list"}
+				}
+			}
+		}
+		desc = fmt.Sprintf(`{"seed":%d,"mode":%q}`, cs, mode)
 		defer func() {
 			if r := recover(); r != nil {
 				m = fmt.Sprintf("PANIC %v", r)
+				classify()
 			}
 		}()
-		return fmt.Sprintf(`{"seed":%d,"mode":%q}`, cs, mode), mode, fs[mode](rand.New(rand.NewSource(cs))), nil
+		m = fs[mode](rand.New(rand.NewSource(cs)))
+		classify()
+		return
 	})
 }
